@@ -7,6 +7,7 @@ package syntax
 import (
 	"regexp"
 	re_syntax "regexp/syntax"
+	"strconv"
 	"unicode"
 	"unicode/utf8"
 )
@@ -100,9 +101,16 @@ func keywordToken(b []byte) ([]byte, int) {
 		case '0', '1', '2', '3', '4', '5', '6', '7', '8', '9', '-':
 			// Numeric tokens
 			if v, id := tokFloatRule(b); len(v) > 0 {
+				if !floatTokenInRange(v) {
+					return v, INVALID
+				}
 				return v, id
 			}
-			return tokIntRule(b)
+			v, id := tokIntRule(b)
+			if len(v) > 0 && !intTokenInRange(v) {
+				return v, INVALID
+			}
+			return v, id
 		case '_':
 			return tokIdRule(b)
 
@@ -241,12 +249,43 @@ var (
 			`))*"`,
 		LITSTRING,
 	)
-	tokFloatRule = regexpRule(`^-?\d+(:?(?:\.\d+)?[eE][+-]?|\.)\d+\b`, NUM_FLOAT)
+	tokFloatRule = regexpRule(`^-?\d+(?:(?:\.\d+)?[eE][+-]?|\.)\d+\b`, NUM_FLOAT)
 	tokIntRule   = regexpRule(`^-?0*\d{1,19}\b`, NUM_INT)
 
 	// Identifiers for filetypes, stages, etc.
 	tokIdRule = regexpRule(`^_?[[:alpha:]]\w*\b`, ID)
 )
+
+// intTokenInRange returns true if the integer token can be represented as an
+// int64.  The token regular expression admits up to 19 significant digits,
+// which is one more than is always representable.
+func intTokenInRange(v []byte) bool {
+	neg := false
+	if len(v) > 0 && v[0] == '-' {
+		neg = true
+		v = v[1:]
+	}
+	const cutoff = 1 << 63
+	var n uint64
+	for _, c := range v {
+		if c < '0' || c > '9' {
+			return false
+		}
+		n1 := 10*n + uint64(c-'0')
+		if n1 < n || n1 > cutoff || (!neg && n1 == cutoff) {
+			return false
+		}
+		n = n1
+	}
+	return true
+}
+
+// floatTokenInRange returns true if the float token can be parsed as a
+// finite 64-bit float.
+func floatTokenInRange(v []byte) bool {
+	_, err := strconv.ParseFloat(string(v), 64)
+	return err == nil
+}
 
 func nextToken(head []byte) (int, []byte) {
 	val, tokid := keywordToken(head)
